@@ -539,11 +539,18 @@ def reset_rule(chk, db, fn, k, R, want, paths, succ, full, fview, L, label, wher
     elif k.kind in ('VEC', 'STR') and k.bin:
         S = SIZEOF[k.elem.name]
         cnt = Poly.atom('(%r / %d)' % (L, S))
-        resize = [it for it in fview if it[0] == 'DEST' and it[1] == 'resize']
-        raws = [it for it in fview if it[0] == 'RAW']
-        if not (len(resize) == 1 and symx.as_poly(resize[0][3][0]) == cnt and len(raws) == 1 and (raws[0][2] - raws[0][1]) == cnt
-                and raw_from_start(raws[0])):
-            why_r.append('destination is not resized to len/%d and completely overwritten from its first element' % S)
+        for p in succ:          # every successful path, not only the longest one: a conditional resize keeps a stale tail
+            pv = io_view(p)
+            resize = [it for it in pv if it[0] == 'DEST' and it[1] == 'resize']
+            raws = [it for it in pv if it[0] == 'RAW']
+            if not resize:
+                # no resize is fine exactly when the path has established that the container already has the new length
+                eq = Cmp('==', Poly.atom('p:value.size()'), cnt)
+                if any(isinstance(c, Cmp) and (c if sense else c.negated()).key() == eq.key() for c, sense in p.conds):
+                    resize = [('DEST', 'resize', None, [cnt], -1)]
+            if not (len(resize) == 1 and symx.as_poly(resize[0][3][0]) == cnt and len(raws) == 1 and (raws[0][2] - raws[0][1]) == cnt
+                    and raw_from_start(raws[0]) and resize[0][4] < raws[0][4]):
+                why_r.append('destination is not resized to len/%d and completely overwritten from its first element on the path [%s]' % (S, p.describe()[:120]))
     elif k.kind == 'ARR':
         if k.bin:
             raws = [it for it in fview if it[0] == 'RAW']
